@@ -247,7 +247,7 @@ def gen_stmt(rng, nobj, nnames):
 
 def gen_script_case(rng, n, cfg, nnames=4):
     """abstract statements only (token lists); rendering happens in `render_case`"""
-    stmts = [["init"]]
+    stmts = []
     nobj = 0
     # start with a few named objects so that groups exist early
     for _ in range(rng.choice([0, 2, 3, 4])):
@@ -273,9 +273,12 @@ class Prop:
             return "violation", "implementation crashed / sanitizer report: " + crash, crash
         i = common.first_diff(impl, model)
         why = "line %d `%s`: implementation says `%s`, proved model says `%s`" % (
-            i, (lines[i] if i < len(lines) else "?")[:200], impl[i] if i < len(impl) else "<missing>",
+            i, (lines[i] if i < len(lines) else "?").split("## ")[-1][:200], impl[i] if i < len(impl) else "<missing>",
             model[i] if i < len(model) else "<missing>")
-        op = (lines[i] if i < len(lines) else "?").split(" ")[0]
+        l = lines[i] if i < len(lines) else "?"
+        op = l.split(" ")[0]
+        if op == "s" and "##" in l:
+            op = "script:" + l.split("## ", 1)[1].split(" ")[0]
         return "violation", why, "diff:" + op
 
 
@@ -294,34 +297,37 @@ def build(ctx):
 # which code is it?  (the model has a flag for each of the two suggested repairs, so that the check
 # follows the tree: see notes/C15-findings.md)
 
-FIELD_PROBE = [["init"], ["spawn", "2"], ["spawn", "2"], ["fieldset", "$2", "7"]]
-VALUE_PROBE = [["init"], ["spawn", "2"], ["spawn", "2"], ["capture", "1", "2"], ["spawn", "2"], ["size", "v1"]]
-D16_WITNESS = [["init"], ["spawn", "2"], ["spawn", "2"], ["capture", "1", "2"], ["delete", "o1"], ["delete", "o2"],
+FIELD_PROBE = [["spawn", "2"], ["spawn", "2"], ["fieldset", "$2", "7"]]
+VALUE_PROBE = [["spawn", "2"], ["spawn", "2"], ["capture", "1", "2"], ["spawn", "2"], ["size", "v1"]]
+D16_WITNESS = [["spawn", "2"], ["spawn", "2"], ["capture", "1", "2"], ["delete", "o1"], ["delete", "o2"],
                ["size", "v1"]]
 
 
 def probe_cfg(ctx, exe):
+    """returns (cfg, last answer of the field probe, problems).  An answer that fits neither modelled
+    variant selects the tree-as-found variant; the probes are also run as ordinary cases, so the
+    difference is then reported with a replay by the correspondence."""
     rng = ctx.rng("probe")
     cfg0 = {"snapshot": 0, "fieldfan": 0}
+    problems = []
+    fieldfan = snapshot = 0
     out, crash, info = common.run_lines(exe, [], render_case(rng, cfg0, FIELD_PROBE), timeout=30)
-    if crash or len(out) != 5:
-        raise common.CheckError("field probe failed: %s %s" % (crash, info[-800:]))
-    if "C[1:0:7,2:0:7]" in out[-1]:
+    last = out[-1] if out else ""
+    if crash or len(out) != 4:
+        problems.append("field probe: %s" % (crash or "short answer"))
+    elif "C[1:0:7,2:0:7]" in last:
         fieldfan = 1
-    elif "C[1:0:0,2:0:0]" in out[-1]:
-        fieldfan = 0
-    else:
-        raise common.CheckError("field probe: unexpected answer " + out[-1])
+    elif "C[1:0:0,2:0:0]" not in last:
+        problems.append("field probe: unexpected answer " + last)
     out2, crash, info = common.run_lines(exe, [], render_case(rng, cfg0, VALUE_PROBE), timeout=30)
-    if crash or len(out2) != 7:
-        raise common.CheckError("value probe failed: %s %s" % (crash, info[-800:]))
-    if "out=[s 3]" in out2[-1]:
-        snapshot = 0
-    elif "out=[s 2]" in out2[-1]:
+    last2 = out2[-1] if out2 else ""
+    if crash or len(out2) != 6:
+        problems.append("value probe: %s" % (crash or "short answer"))
+    elif "out=[s 2]" in last2:
         snapshot = 1
-    else:
-        raise common.CheckError("value probe: unexpected answer " + out2[-1])
-    return {"snapshot": snapshot, "fieldfan": fieldfan}, out[-1]
+    elif "out=[s 3]" not in last2:
+        problems.append("value probe: unexpected answer " + last2)
+    return {"snapshot": snapshot, "fieldfan": fieldfan}, last, problems
 
 
 class ScriptRunner:
@@ -414,8 +420,8 @@ def report_d16(ctx, exe, cfg, runner):
     if stmts is None:
         return
     if not first:
-        body = common.ddmin(stmts[1:-1], lambda b: ub_fails(ctx, exe, cfg, stmts[:1] + b + stmts[-1:]) is not None, 80)
-        stmts = stmts[:1] + body + stmts[-1:]
+        body = common.ddmin(stmts[:-1], lambda b: ub_fails(ctx, exe, cfg, b + stmts[-1:]) is not None, 80)
+        stmts = body + stmts[-1:]
     res = ub_fails(ctx, exe, cfg, stmts)
     if not res:
         return
@@ -461,7 +467,7 @@ def exhaustive_script(depth, nobj=2):
         alpha.append(["delete", "o%d" % k])
     alpha += [["fan", "v1", "hello", ";", "mark", "self"], ["fandelete", "v1"], ["fanname", "v1", "2"]]
     suffix = [["query", "$2"], ["query", "$3"], ["query", "v1"], ["index", "v1", "2"], ["fieldset", "v1", "5"]]
-    prefix = [["init"]] + [["spawn", "2"] for _ in range(nobj)]
+    prefix = [["spawn", "2"] for _ in range(nobj)]
     out = []
 
     def rec(cur, d):
@@ -480,7 +486,7 @@ def check(ctx):
     if ctx.tier == "thorough":
         common.leanchecker(ctx, PROPS_MODULE)
     exe = build(ctx)
-    cfg, field_answer = probe_cfg(ctx, exe)
+    cfg, field_answer, problems = probe_cfg(ctx, exe)
     ctx.stats["code_variant"] = cfg
     ctx.notes.append("code variant detected by probes: captured $name value is a %s, field assignment on a group %s" % (
         "snapshot (const array)" if cfg["snapshot"] else "raw pointer to the table's list (live view)",
@@ -496,6 +502,7 @@ def check(ctx):
             script_corpus.append((name, [t.split(" ") for t in obj["statements"]]))
         else:
             host_corpus.append((name, [header(cfg)] + [l for l in obj["lines"] if not l.startswith("universe")]))
+    bad += runner.run([("probe:field", FIELD_PROBE), ("probe:value", VALUE_PROBE)])
     bad += d.run_batch(host_corpus)
     bad += runner.run(script_corpus)
     # host level
@@ -536,11 +543,13 @@ def check(ctx):
     ctx.oblige("correspondence harness/target.cpp == Target model (variant %s) on %d histories" % (
         "snapshot=%d,fieldfan=%d" % (cfg["snapshot"], cfg["fieldfan"]), d.cases), bad == 0,
         "%d differing cases" % bad, reported=True)
+    ctx.oblige("the variant probes answer as one of the modelled variants", not problems or bad > 0,
+               "; ".join(problems))
     # the two clauses the unrepaired code violates (the model reproduces both faithfully, so the
     # correspondence cannot show them: they are reported from the probes / the ub cases)
     if not cfg["snapshot"]:
         report_d16(ctx, exe, cfg, runner)
-    if not cfg["fieldfan"]:
+    if not cfg["fieldfan"] and not problems:
         report_field(ctx, cfg, render_case(ctx.rng("probe"), cfg, FIELD_PROBE), field_answer)
     ctx.samples = [gen_host(ctx.rng("sample"), 10, cfg),
                    [" ".join(t) for t in gen_script_case(ctx.rng("sample2"), 10, cfg)]]
